@@ -659,7 +659,8 @@ def dead_ends(fn, start, avoid=()):
     return sorted(out)
 
 
-ITER_ADAPT = [r"iter::IntoIterator::into_iter$", r"slice::<impl \[T\]>::iter$", r"vec::Vec::<T, A>::iter$"]
+# (as_slice / Deref to a slice: the same elements in the same order, so a list handed to an extracted helper as `&[T]` is still that list)
+ITER_ADAPT = [r"iter::IntoIterator::into_iter$", r"slice::<impl \[T\]>::iter$", r"vec::Vec::<T, A>::iter$", r"vec::Vec::<T, A>::as_slice$", r"vec::Vec::<T, A>::as_mut_slice$"]
 
 
 SEARCH_ADAPTORS = r"iter::Iterator::(find|position|any|rposition|find_map)$|iter::DoubleEndedIterator::rfind$"
@@ -735,7 +736,7 @@ def _conflict_test(facts, ins, vec):
         return res, None
     pit = access_path(ins, ut["args"][0], VALUE_PRESERVING + ITER_ADAPT)
     res["iter_ok"] = pit.root[0] == vec.root[0] and pit.root_local() == vec.root_local() and pit.path == vec.path and \
-        not [c for c in pit.call_names() if not re.search(r"Deref::deref$|DerefMut::deref_mut$|slice::<impl \[T\]>::iter$|iter::IntoIterator::into_iter$|vec::Vec::<T, A>::iter$|Clone::clone$|AsRef::as_ref$|Borrow::borrow$", c)]
+        not [c for c in pit.call_names() if not re.search(r"Deref::deref$|DerefMut::deref_mut$|slice::<impl \[T\]>::iter$|iter::IntoIterator::into_iter$|vec::Vec::<T, A>::(iter|as_slice|as_mut_slice)$|Clone::clone$|AsRef::as_ref$|Borrow::borrow$", c)]
     res["detail"] += " handed to %s over %r" % (callee.split("::")[-1], pit)
     if callee.endswith("::any"):
         sw = bool_switch_of_call(ins, ubb, ut)
